@@ -279,3 +279,11 @@ Definition effective (oo : option opts) (w h : Z) (has_alpha : bool) : Res eff :
 
 Definition encode_outcome (writer_nil image_nil : bool) (oo : option opts) (w h : Z) (has_alpha : bool) : Res eff :=
   if writer_nil then Err 10 else if image_nil then Err 11 else effective oo w h has_alpha.
+
+(** lossy.initPassStats resolves QMax once more before clamping the rate control's quality
+    range (rules regenerated from the source: (op, c, d) = if qmax < c (op 0) or qmax <= c
+    (op 1) then d). *)
+Definition ratectl_qmax (v : Z) : Z :=
+  fold_left (fun q r => let '(op, c, d) := r in
+                        if (if op =f? 0 then q <? c else q <=? c) then d else q)
+            F.ratectl_qmax_rule v.
